@@ -138,7 +138,8 @@ def dot (M : MetaMat Rat) (tr : Bool) (x : Array Rat) (i : Nat) : Rat :=
 
 /-- both `apply` directions of `M` meet their specification -/
 def Ok (M : MetaMat Rat) : Prop :=
-  Spec (M.goQ false) M.rows M.cols (M.dot false) ∧ Spec (M.goQ true) M.cols M.rows (M.dot true)
+  Spec (M.goQ false) M.rows M.cols (M.dot false) ∧
+  (M.noBanded = true → Spec (M.goQ true) M.cols M.rows (M.dot true))
 
 theorem row_ok {f r : MetaMat Rat} (hf : f.Ok) (hr : r.Ok) (hrows : f.rows = r.rows) : (row f r).Ok := by
   constructor
@@ -147,7 +148,9 @@ theorem row_ok {f r : MetaMat Rat} (hf : f.Ok) (hr : r.Ok) (hrows : f.rows = r.r
     intro x i hx _
     simp only [dot, Bool.false_eq_true, if_false, entry, cols]
     exact (sum_hsplit (fun k => f.entry i k) (fun k => r.entry i k) x f.cols r.cols hx).symm
-  · have h := split_spec hf.2 (by rw [hrows]; exact hr.2)
+  · intro hnb
+    simp only [noBanded, Bool.and_eq_true] at hnb
+    have h := split_spec (hf.2 hnb.1) (by rw [hrows]; exact hr.2 hnb.2)
     refine h.congr ?_
     intro x i _ _
     simp only [dot, if_true, entry, rows]
@@ -164,7 +167,9 @@ theorem col_ok {f r : MetaMat Rat} (hf : f.Ok) (hr : r.Ok) (hcols : f.cols = r.c
     by_cases hi : i < f.rows
     · simp only [if_pos hi]
     · simp only [if_neg hi, hcols]
-  · have h := chain_spec hf.2 (by rw [hcols]; exact hr.2)
+  · intro hnb
+    simp only [noBanded, Bool.and_eq_true] at hnb
+    have h := chain_spec (hf.2 hnb.1) (by rw [hcols]; exact hr.2 hnb.2)
     refine h.congr ?_
     intro x i hx _
     simp only [dot, if_true, entry, rows]
@@ -183,7 +188,9 @@ theorem diag_ok {f r : MetaMat Rat} (hf : f.Ok) (hr : r.Ok) : (diag f r).Ok := b
     · simp only [if_neg hi]
       refine Eq.trans ?_ (sum_hsplit (fun _ => 0) (fun k => r.entry (i - f.rows) k) x f.cols r.cols hx).symm
       simp
-  · have h := split_spec (onFirst_spec (k := r.rows) hf.2) (onRest_spec (off := f.rows) hr.2)
+  · intro hnb
+    simp only [noBanded, Bool.and_eq_true] at hnb
+    have h := split_spec (onFirst_spec (k := r.rows) (hf.2 hnb.1)) (onRest_spec (off := f.rows) (hr.2 hnb.2))
     refine h.congr ?_
     intro x i hx _
     simp only [dot, if_true, entry, rows]
@@ -215,8 +222,10 @@ theorem saddle_ok {a b d : MetaMat Rat} (ha : a.Ok) (hb : b.Ok) (hd : d.Ok) (hro
     · simp only [if_neg hi]
       refine Eq.trans ?_ (sum_hsplit (fun k => d.entry (i - a.rows) k) (fun _ => 0) x a.cols b.cols hx).symm
       simp [hcols]
-  · have h := split_spec (chain_spec ha.2 (by rw [hcols]; exact hd.2))
-      (onFirst_spec (k := d.rows) (by rw [hrows]; exact hb.2))
+  · intro hnb
+    simp only [noBanded, Bool.and_eq_true] at hnb
+    have h := split_spec (chain_spec (ha.2 hnb.1.1) (by rw [hcols]; exact hd.2 hnb.2))
+      (onFirst_spec (k := d.rows) (by rw [hrows]; exact hb.2 hnb.1.2))
     refine h.congr ?_
     intro x i hx _
     simp only [dot, if_true, entry, rows]
@@ -231,9 +240,15 @@ theorem saddle_ok {a b d : MetaMat Rat} (ha : a.Ok) (hb : b.Ok) (hd : d.Ok) (hro
 theorem ok_of_leaves
     (hcsr : ∀ A : Csr Rat, A.wf = true → (MetaMat.csr A).Ok)
     (hbcsr : ∀ A : Bcsr Rat, A.wf = true → 0 < A.bh → 0 < A.bw → (MetaMat.bcsr A).Ok)
-    (hdense : ∀ A : Dense Rat, A.wf = true → 0 < A.rows → 0 < A.cols → (MetaMat.dense A).Ok) :
+    (hdense : ∀ A : Dense Rat, A.wf = true → 0 < A.rows → 0 < A.cols → (MetaMat.dense A).Ok)
+    (hcscr : ∀ A : Cscr Rat, A.wf = true → (MetaMat.cscr A).Ok)
+    (hbanded : ∀ A : Banded Rat, A.wf = true → 0 < A.rows → (MetaMat.banded A).Ok) :
     ∀ M : MetaMat Rat, M.wf = true → M.Ok
   | .csr A, h => hcsr A h
+  | .cscr A, h => hcscr A h
+  | .banded A, h => by
+    simp only [wf, Bool.and_eq_true, decide_eq_true_eq] at h
+    exact hbanded A h.1 h.2
   | .bcsr A, h => by
     simp only [wf, Bool.and_eq_true, decide_eq_true_eq] at h
     exact hbcsr A h.1.1 h.1.2 h.2
@@ -242,17 +257,17 @@ theorem ok_of_leaves
     exact hdense A h.1.1 h.1.2 h.2
   | .row f r, h => by
     simp only [wf, Bool.and_eq_true, beq_iff_eq] at h
-    exact row_ok (ok_of_leaves hcsr hbcsr hdense f h.1.1) (ok_of_leaves hcsr hbcsr hdense r h.1.2) h.2
+    exact row_ok (ok_of_leaves hcsr hbcsr hdense hcscr hbanded f h.1.1) (ok_of_leaves hcsr hbcsr hdense hcscr hbanded r h.1.2) h.2
   | .col f r, h => by
     simp only [wf, Bool.and_eq_true, beq_iff_eq] at h
-    exact col_ok (ok_of_leaves hcsr hbcsr hdense f h.1.1) (ok_of_leaves hcsr hbcsr hdense r h.1.2) h.2
+    exact col_ok (ok_of_leaves hcsr hbcsr hdense hcscr hbanded f h.1.1) (ok_of_leaves hcsr hbcsr hdense hcscr hbanded r h.1.2) h.2
   | .diag f r, h => by
     simp only [wf, Bool.and_eq_true] at h
-    exact diag_ok (ok_of_leaves hcsr hbcsr hdense f h.1) (ok_of_leaves hcsr hbcsr hdense r h.2)
+    exact diag_ok (ok_of_leaves hcsr hbcsr hdense hcscr hbanded f h.1) (ok_of_leaves hcsr hbcsr hdense hcscr hbanded r h.2)
   | .saddle a b d, h => by
     simp only [wf, Bool.and_eq_true, beq_iff_eq] at h
-    exact saddle_ok (ok_of_leaves hcsr hbcsr hdense a h.1.1.1.1) (ok_of_leaves hcsr hbcsr hdense b h.1.1.1.2)
-      (ok_of_leaves hcsr hbcsr hdense d h.1.1.2) h.1.2 h.2
+    exact saddle_ok (ok_of_leaves hcsr hbcsr hdense hcscr hbanded a h.1.1.1.1) (ok_of_leaves hcsr hbcsr hdense hcscr hbanded b h.1.1.1.2)
+      (ok_of_leaves hcsr hbcsr hdense hcscr hbanded d h.1.1.2) h.1.2 h.2
 
 /-! ### the `|alpha| < eps` early-out: every member returns `y` itself -/
 
@@ -305,41 +320,47 @@ def TinyOk (M : MetaMat Rat) : Prop :=
 theorem tiny_of_leaves
     (hcsr : ∀ A : Csr Rat, (MetaMat.csr A).TinyOk)
     (hbcsr : ∀ A : Bcsr Rat, (MetaMat.bcsr A).TinyOk)
-    (hdense : ∀ A : Dense Rat, 0 < A.rows → 0 < A.cols → (MetaMat.dense A).TinyOk) :
+    (hdense : ∀ A : Dense Rat, 0 < A.rows → 0 < A.cols → (MetaMat.dense A).TinyOk)
+    (hcscr : ∀ A : Cscr Rat, (MetaMat.cscr A).TinyOk)
+    (hbanded : ∀ A : Banded Rat, 0 < A.rows → (MetaMat.banded A).TinyOk) :
     ∀ M : MetaMat Rat, M.wf = true → M.TinyOk
   | .csr A, _ => hcsr A
+  | .cscr A, _ => hcscr A
+  | .banded A, h => by
+    simp only [wf, Bool.and_eq_true, decide_eq_true_eq] at h
+    exact hbanded A h.2
   | .bcsr A, _ => hbcsr A
   | .dense A, h => by
     simp only [wf, Bool.and_eq_true, decide_eq_true_eq] at h
     exact hdense A h.1.2 h.2
   | .row f r, h => by
     simp only [wf, Bool.and_eq_true, beq_iff_eq] at h
-    have hf := tiny_of_leaves hcsr hbcsr hdense f h.1.1
-    have hr := tiny_of_leaves hcsr hbcsr hdense r h.1.2
+    have hf := tiny_of_leaves hcsr hbcsr hdense hcscr hbanded f h.1.1
+    have hr := tiny_of_leaves hcsr hbcsr hdense hcscr hbanded r h.1.2
     have e := h.2
     have g1 := chain_tiny hf.1 (by rw [e]; exact hr.1)
     have g2 := split_tiny hf.2 (by rw [e]; exact hr.2)
     exact ⟨g1, g2⟩
   | .col f r, h => by
     simp only [wf, Bool.and_eq_true, beq_iff_eq] at h
-    have hf := tiny_of_leaves hcsr hbcsr hdense f h.1.1
-    have hr := tiny_of_leaves hcsr hbcsr hdense r h.1.2
+    have hf := tiny_of_leaves hcsr hbcsr hdense hcscr hbanded f h.1.1
+    have hr := tiny_of_leaves hcsr hbcsr hdense hcscr hbanded r h.1.2
     have e := h.2
     have g1 := split_tiny hf.1 (by rw [e]; exact hr.1)
     have g2 := chain_tiny hf.2 (by rw [e]; exact hr.2)
     exact ⟨g1, g2⟩
   | .diag f r, h => by
     simp only [wf, Bool.and_eq_true] at h
-    have hf := tiny_of_leaves hcsr hbcsr hdense f h.1
-    have hr := tiny_of_leaves hcsr hbcsr hdense r h.2
+    have hf := tiny_of_leaves hcsr hbcsr hdense hcscr hbanded f h.1
+    have hr := tiny_of_leaves hcsr hbcsr hdense hcscr hbanded r h.2
     have g1 := split_tiny (onFirst_tiny (k := r.cols) hf.1) (onRest_tiny (off := f.cols) hr.1)
     have g2 := split_tiny (onFirst_tiny (k := r.rows) hf.2) (onRest_tiny (off := f.rows) hr.2)
     exact ⟨g1, g2⟩
   | .saddle a b d, h => by
     simp only [wf, Bool.and_eq_true, beq_iff_eq] at h
-    have ha := tiny_of_leaves hcsr hbcsr hdense a h.1.1.1.1
-    have hb := tiny_of_leaves hcsr hbcsr hdense b h.1.1.1.2
-    have hd := tiny_of_leaves hcsr hbcsr hdense d h.1.1.2
+    have ha := tiny_of_leaves hcsr hbcsr hdense hcscr hbanded a h.1.1.1.1
+    have hb := tiny_of_leaves hcsr hbcsr hdense hcscr hbanded b h.1.1.1.2
+    have hd := tiny_of_leaves hcsr hbcsr hdense hcscr hbanded d h.1.1.2
     have er := h.1.2
     have ec := h.2
     have g1 := split_tiny (chain_tiny ha.1 (by rw [er]; exact hb.1)) (onFirst_tiny (k := b.cols) (by rw [ec]; exact hd.1))
